@@ -724,7 +724,7 @@ def short_streams(chk):
     if limit >= 14:
         add([GOOD_CONTACT, ('ka',), ('ka',), ('term', 0, 3), ('rej', 4, 1)])
         add([GOOD_CONTACT, ('ka',), ('seg', 0, 1, b'', b'')], trunc=12)
-    want = 16 if chk.quick() else 60
+    want = 16 if chk.quick() else 36
     tries = 0
     while len(streams) < want and tries < 2000:
         tries += 1
@@ -739,7 +739,7 @@ def long_streams(chk):
     ''' (tag, frames, items per frame): every message type, boundary field values. '''
     rng = chk.rng
     out = []
-    count = 14 if chk.quick() else 60
+    count = 14 if chk.quick() else 36
     for idx in range(count):
         frames = [(GOOD_CONTACT, [])]
         kinds = ['init', 'seg', 'seg', 'ack', 'refuse', 'ka', 'rej', 'seg', 'term']
@@ -750,7 +750,7 @@ def long_streams(chk):
         for kind in kinds:
             frames.append(gen_frame(rng, kind))
         out.append(('long', frames))
-    nbig = 1 if chk.quick() else 8
+    nbig = 1 if chk.quick() else 4
     for _ in range(nbig):
         frames = [(GOOD_CONTACT, []), gen_frame(rng, 'init'), gen_frame(rng, 'seg', big=True), (('ka',), []),
                   gen_frame(rng, 'seg'), (('term', 0, 3), [])]
@@ -779,7 +779,7 @@ def directed_cuts(chk, frames, size_limit_all=400):
     cuts.append(('field-boundaries-1', lens_from_points([p - 1 for p in bounds + msg_ends], size)))
     cuts.append(('field-boundaries+1', lens_from_points([p + 1 for p in bounds + msg_ends], size)))
     allb = sorted(set(bounds + msg_ends))
-    for point in allb[:: max(1, len(allb) // (6 if chk.quick() else 20))]:
+    for point in allb[:: max(1, len(allb) // (6 if chk.quick() else 12))]:
         cuts.append(('two-reads@boundary', lens_from_points([point], size)))
         cuts.append(('two-reads@boundary-1', lens_from_points([point - 1], size)))
         cuts.append(('two-reads@boundary+1', lens_from_points([point + 1], size)))
@@ -928,7 +928,7 @@ def run_codec(chk, run, jobs, corpus, sizes):
     cases = []   # (frame, items, tail)
     for ent in corpus:
         cases.append(ent)
-    per_kind = 30 if chk.quick() else 200
+    per_kind = 30 if chk.quick() else 120
     for kind in ['seg', 'ack', 'refuse', 'term', 'rej', 'init']:
         for idx in range(per_kind if kind in ('seg', 'init') else max(6, per_kind // 3)):
             (frame, items) = gen_frame(rng, kind, nitems=(idx % 4 if kind in ('seg', 'init') and idx < 12 else None))
@@ -1036,7 +1036,7 @@ def run_framing_short(chk, run, jobs, sizes, pool):
     streams = short_streams(chk)
     model_cases = []   # (stream index, mask, lens)
     handles = []
-    budget = 600 if chk.quick() else 6000
+    budget = 600 if chk.quick() else 3600
     per_stream = max(8, budget // max(1, len(streams)))
     for (sidx, (tag, stream)) in enumerate(streams):
         size = len(stream)
@@ -1160,7 +1160,7 @@ def run_framing_real(chk, run, jobs, sizes):
     rng = chk.rng
     plan = []
     futs = []
-    for idx in range(4 if chk.quick() else 16):
+    for idx in range(4 if chk.quick() else 10):
         xid = rng.choice([0, 1, 7, 2 ** 32])
         data = [bytes(rng.randrange(256) for _ in range(rng.choice([0, 1, 9, 40]))) for _ in range(3)]
         total = sum(len(d) for d in data)
@@ -1237,7 +1237,7 @@ def run_malformed(chk, run, jobs, sizes):
         ('truncated', seg(ext(1, 1, b'12345678'))[:-1]), ('truncated', init(b'')[:-2]), ('truncated', b'\x05\x00'),
         ('truncated', b'\x02' + b'\x00' * 16), ('truncated', b'\x07\x00\x01'),
     ]
-    for _ in range(20 if chk.quick() else 200):
+    for _ in range(20 if chk.quick() else 120):
         base = spec_encode(gen_frame(rng)[0])
         if len(base) > 400:
             continue
